@@ -4,4 +4,5 @@ CONSTANTS
   ATTRS = {1, 2, 3}
   MAXSTYLES = 3
 INVARIANT OrderIndependent
+INVARIANT OneRowPerName
 CHECK_DEADLOCK FALSE
